@@ -358,11 +358,14 @@ def chains(ctx, F):
             # the node a branch is attached to is a node of the chain (the root or what an earlier attach returned), never an argument of the
             # generator used as an index
             def _direct(e_):
-                while e_[0] == 'cast':
+                while isinstance(e_, tuple) and len(e_) >= 2 and e_[0] == 'cast':
                     e_ = e_[1]
+                if not isinstance(e_, tuple) or not e_:
+                    return False
                 if e_[0] == 'phi':
-                    return any(_direct(y) for y in e_[2])
-                return e_[0] == 'param' and e_[1] != 'self'
+                    alts_ = [y for y in e_[1:] if isinstance(y, tuple) and y and isinstance(y[0], tuple)]
+                    return any(_direct(y) for a_ in alts_ for y in a_) or any(_direct(y) for y in e_[1:] if isinstance(y, tuple) and y and isinstance(y[0], str))
+                return len(e_) == 2 and e_[0] == 'param' and e_[1] != 'self'
             if _direct(s(a[1])):
                 problems.append('a branch is attached to the node whose index is the argument %s' % fmt(a[1])[:40])
             if label == ('const', 0):
